@@ -392,7 +392,7 @@ theorem scope_rt (sc : SScope) (Y : List Char) (hw : wfScope sc) (hY : ∀ c, Y.
       have h4 : tag ['s', 'e', 'c', 'p', '2', '5', '6', 'r', '1', '/'] (['s', 'e', 'c', 'p', '2', '5', '6', 'r', '1', '/'] ++ (hexEncode b ++ Y)) = some (hexEncode b ++ Y) := tag_append _ _
       simp only [scopeC, String.toList_ofList, List.append_assoc, pScope, h1, h2, h3, h4, hx, Option.map_some]
 
-theorem scopeC_head (sc : SScope) (hw : wfScope sc) : ∃ c tl, scopeC sc = c :: tl ∧ isSpace c = false := by
+theorem scopeC_head (sc : SScope) (hw : wfScope sc) : ∃ c tl, scopeC sc = c :: tl ∧ isSpace c = false ∧ c ≠ '(' := by
   cases sc with
   | authority => exact ⟨'a', ['u', 't', 'h', 'o', 'r', 'i', 't', 'y'], rfl, by decide⟩
   | previous => exact ⟨'p', ['r', 'e', 'v', 'i', 'o', 'u', 's'], rfl, by decide⟩
@@ -438,7 +438,7 @@ theorem scopeTail_rt : ∀ (scs : List SScope) (fuel : Nat) (X : List Char),
     simp only [List.length_cons] at hf
     obtain ⟨n, rfl⟩ : ∃ n, fuel = n + 1 := ⟨fuel - 1, by omega⟩
     have hwsc := hw sc List.mem_cons_self
-    obtain ⟨c, tl, hs, hsp⟩ := scopeC_head sc hwsc
+    obtain ⟨c, tl, hs, hsp, _⟩ := scopeC_head sc hwsc
     have hsp0 : space0 (' ' :: (scopeC sc ++ (tailScopesC scs ++ X))) = scopeC sc ++ (tailScopesC scs ++ X) := by
       rw [space0_blank, hs]; exact space0_cons _ hsp
     have h1 := scope_rt sc (tailScopesC scs ++ X) hwsc (nohex_tailScopes scs X hX)
@@ -452,14 +452,23 @@ def scopesC : List SScope → List Char
   | sc :: scs => [' ', 't', 'r', 'u', 's', 't', 'i', 'n', 'g', ' '] ++ (scopeC sc ++ tailScopesC scs)
 
 theorem scopes_rt (scs : List SScope) (fuel : Nat) (X : List Char) (hw : ∀ sc ∈ scs, wfScope sc) (hX : ScopesEnd X)
-    (hnt : tag ['t', 'r', 'u', 's', 't', 'i', 'n', 'g'] (space0 X) = none) (hf : scs.length + 1 ≤ fuel) :
+    (hnt : (tag ['t', 'r', 'u', 's', 't', 'i', 'n', 'g'] (space0 X)).filter keywordEnds = none) (hf : scs.length + 1 ≤ fuel) :
     pScopes fuel (scopesC scs ++ X) = .ok scs X := by
   cases scs with
   | nil => simp only [scopesC, List.nil_append, pScopes, hnt]
   | cons sc scs =>
     have hwsc := hw sc List.mem_cons_self
-    obtain ⟨c, tl, hs, hsp⟩ := scopeC_head sc hwsc
-    have ht : tag ['t', 'r', 'u', 's', 't', 'i', 'n', 'g'] (space0 ([' ', 't', 'r', 'u', 's', 't', 'i', 'n', 'g', ' '] ++ (scopeC sc ++ tailScopesC scs ++ X))) =
+    obtain ⟨c, tl, hs, hsp, hpar⟩ := scopeC_head sc hwsc
+    have hsp0 : space0 (' ' :: (scopeC sc ++ (tailScopesC scs ++ X))) = scopeC sc ++ (tailScopesC scs ++ X) := by
+      rw [space0_blank, hs]; exact space0_cons _ hsp
+    have hkw : keywordEnds (' ' :: (scopeC sc ++ (tailScopesC scs ++ X))) = true := by
+      have hsp1 : space0 (' ' :: c :: (tl ++ (tailScopesC scs ++ X))) = c :: (tl ++ (tailScopesC scs ++ X)) := by
+        rw [space0_blank]; exact space0_cons _ hsp
+      simp only [keywordEnds, hs, List.cons_append, show isNameChar ' ' = false by decide, Bool.not_false, Bool.true_and, hsp1]
+      split
+      · rename_i heq; injection heq with h1 _; exact absurd h1 hpar
+      · rfl
+    have ht : (tag ['t', 'r', 'u', 's', 't', 'i', 'n', 'g'] (space0 ([' ', 't', 'r', 'u', 's', 't', 'i', 'n', 'g', ' '] ++ (scopeC sc ++ tailScopesC scs ++ X)))).filter keywordEnds =
         some (' ' :: (scopeC sc ++ (tailScopesC scs ++ X))) := by
       have : [' ', 't', 'r', 'u', 's', 't', 'i', 'n', 'g', ' '] ++ (scopeC sc ++ tailScopesC scs ++ X) =
           ' ' :: (['t', 'r', 'u', 's', 't', 'i', 'n', 'g'] ++ (' ' :: (scopeC sc ++ (tailScopesC scs ++ X)))) := by
@@ -468,10 +477,8 @@ theorem scopes_rt (scs : List SScope) (fuel : Nat) (X : List Char) (hw : ∀ sc 
       have e2 : space0 (['t', 'r', 'u', 's', 't', 'i', 'n', 'g'] ++ (' ' :: (scopeC sc ++ (tailScopesC scs ++ X)))) =
           ['t', 'r', 'u', 's', 't', 'i', 'n', 'g'] ++ (' ' :: (scopeC sc ++ (tailScopesC scs ++ X))) :=
         space0_cons _ (show isSpace 't' = false by decide)
-      rw [e2]
-      exact tag_append ['t', 'r', 'u', 's', 't', 'i', 'n', 'g'] _
-    have hsp0 : space0 (' ' :: (scopeC sc ++ (tailScopesC scs ++ X))) = scopeC sc ++ (tailScopesC scs ++ X) := by
-      rw [space0_blank, hs]; exact space0_cons _ hsp
+      rw [e2, tag_append ['t', 'r', 'u', 's', 't', 'i', 'n', 'g'] _]
+      simp only [Option.filter, hkw, ↓reduceIte]
     have h1 := scope_rt sc (tailScopesC scs ++ X) hwsc (nohex_tailScopes scs X hX)
     simp only [List.length_cons] at hf
     have h2 := scopeTail_rt scs fuel X (fun y hy => hw y (List.mem_cons_of_mem _ hy)) hX (by omega)
@@ -515,7 +522,7 @@ def needBody (b : Body) : Nat := needElems (elems b) + b.scopes.length + 2
 structure BodyEnd (X : List Char) : Prop where
   elemEnd : ElemEnd X
   scopesEnd : ScopesEnd X
-  notrusting : tag ['t', 'r', 'u', 's', 't', 'i', 'n', 'g'] (space0 X) = none
+  notrusting : (tag ['t', 'r', 'u', 's', 't', 'i', 'n', 'g'] (space0 X)).filter keywordEnds = none
 
 theorem elemEnd_word {c : Char} (Z : List Char) (ho : opStart c = false) (hs : isSpace c = false) (hp : c ≠ '(') :
     ElemEnd (' ' :: c :: Z) := by
